@@ -844,7 +844,8 @@ class Py2Cpp(ITranspiler):
 				var_value = receiver_symbol.types.as_a(defs.Enum).var_value(var_name)
 				var_symbol = self.reflections.type_of(var_value).impl(refs.Object)
 				var_type = self.to_domain_name(var_symbol)
-				literal = var_value.tokens if var_value.is_a(defs.Literal) else str(self.evaluator.exec(var_value))
+				# XXX 文字列リテラルは三重引用符/接頭辞付きの場合があるため、評価モジュールを経由させる (`[1:-1]`が内容にならない書式は拒否される)
+				literal = var_value.tokens if var_value.is_a(defs.Literal) and not var_value.is_a(defs.String) else str(self.evaluator.exec(var_value))
 				# XXX 負数はそのまま展開すると前置の単項演算子と連結して`--3`(デクリメント)になるため、括弧で保護する (例: `-E.M.value` -> `-(-3)`)
 				if not var_symbol.type_is(str) and literal.startswith('-'):
 					literal = f'({literal})'
